@@ -37,6 +37,8 @@ type SpecEnv struct {
 	cellVars map[string]sval
 	qdepth   int // nesting depth of quantifiers being evaluated
 	inTrig   bool // evaluating an instantiation pattern
+	// recLevel: unfolding level to use for calls of a recursive spec function (inside its own axiom)
+	recLevel map[string]int
 }
 
 func (f *Frame) specEnv(st, old *State, pkg *ssa.Package) *SpecEnv {
@@ -342,7 +344,13 @@ func (env *SpecEnv) eval(e Expr) (sval, error) {
 					}
 					pats += " " + tv2.t
 				}
-				body = fmt.Sprintf("(! %s :pattern (%s))", body, pats)
+				alts := ":pattern (" + pats + ")"
+				if strings.Contains(pats, "(sfr2_") {
+					// recursive spec functions: also match the lower unfolding levels
+					alts += " :pattern (" + strings.ReplaceAll(pats, "(sfr2_", "(sfr1_") + ")"
+					alts += " :pattern (" + strings.ReplaceAll(pats, "(sfr2_", "(sfr0_") + ")"
+				}
+				body = fmt.Sprintf("(! %s %s)", body, alts)
 			}
 			env.inTrig = false
 		}
@@ -818,6 +826,33 @@ func (env *SpecEnv) evalCall(x *ECall) (sval, error) {
 				}
 			}
 			return sval{}, fmt.Errorf("len of sort %s", v.sort)
+		case "ite", "min", "max":
+			want := 2
+			if id.Name == "ite" {
+				want = 3
+			}
+			if len(x.Args) != want {
+				return sval{}, fmt.Errorf("%s takes %d arguments", id.Name, want)
+			}
+			var vs []sval
+			for _, a := range x.Args {
+				v, err := env.eval(a)
+				if err != nil {
+					return sval{}, err
+				}
+				vs = append(vs, v)
+			}
+			switch id.Name {
+			case "ite":
+				if vs[0].sort != "Bool" || vs[1].sort != vs[2].sort {
+					return sval{}, fmt.Errorf("ite(cond, a, b): cond must be Bool and a, b of one sort")
+				}
+				return sval{t: fmt.Sprintf("(ite %s %s %s)", vs[0].t, vs[1].t, vs[2].t), sort: vs[1].sort, typ: vs[1].typ}, nil
+			case "min":
+				return sval{t: fmt.Sprintf("(ite (<= %s %s) %s %s)", vs[0].t, vs[1].t, vs[0].t, vs[1].t), sort: "Int"}, nil
+			default:
+				return sval{t: fmt.Sprintf("(ite (>= %s %s) %s %s)", vs[0].t, vs[1].t, vs[0].t, vs[1].t), sort: "Int"}, nil
+			}
 		case "content":
 			v, err := env.eval(x.Args[0])
 			if err != nil {
@@ -999,7 +1034,24 @@ func (env *SpecEnv) evalCall(x *ECall) (sval, error) {
 			}
 			saved, savedOld := env.st, env.inOld
 			env.st, env.inOld = snap, false
+			shadow := map[string]*sval{}
+			for k, v := range f.top.callArgs[x.Args[0].exprString()] {
+				if o, ok := env.vars[k]; ok {
+					oc := o
+					shadow[k] = &oc
+				} else {
+					shadow[k] = nil
+				}
+				env.vars[k] = v
+			}
 			v, err := env.eval(x.Args[1])
+			for k, o := range shadow {
+				if o == nil {
+					delete(env.vars, k)
+				} else {
+					env.vars[k] = *o
+				}
+			}
 			env.st, env.inOld = saved, savedOld
 			return v, err
 		case "held":
@@ -1363,9 +1415,12 @@ func (env *SpecEnv) applySpecFun(sf *SpecFun, argExprs []Expr) (sval, error) {
 	if !ok {
 		return sval{}, fmt.Errorf("spec fun %s: unknown result sort %s", sf.Name, sf.Ret)
 	}
+	if sf.Rec {
+		return env.applyRecFun(sf, args, psorts, atyps, rs)
+	}
 	if sf.Body != nil {
 		// defined: expand in an environment with only the parameters
-		sub := &SpecEnv{f: f, vars: map[string]sval{}, st: env.st, old: env.old, pkg: env.pkg, inOld: env.inOld, reach: env.reach, pol: env.pol, qdepth: env.qdepth}
+		sub := &SpecEnv{f: f, vars: map[string]sval{}, st: env.st, old: env.old, pkg: env.pkg, inOld: env.inOld, reach: env.reach, pol: env.pol, qdepth: env.qdepth, recLevel: env.recLevel}
 		if sf.Pkg != "" {
 			// names in the body resolve in the declaring package
 			for _, p := range f.eng.Prog.SSA.AllPackages() {
@@ -1393,6 +1448,58 @@ func (env *SpecEnv) applySpecFun(sf *SpecFun, argExprs []Expr) (sval, error) {
 		return sval{t: name, sort: rs}, nil
 	}
 	return sval{t: "(" + name + " " + strings.Join(args, " ") + ")", sort: rs}, nil
+}
+
+// applyRecFun: a recursive spec function, defined over the state on entry to the function under
+// verification. It is an uninterpreted symbol with its defining equation as an axiom that unfolds
+// at most twice per term (levels 2 -> 1 -> 0, the usual fuel encoding), so the recursion cannot
+// drive the solver into a matching loop. Contracts mention level 2.
+func (env *SpecEnv) applyRecFun(sf *SpecFun, args, psorts []string, atyps []types.Type, rs string) (sval, error) {
+	f := env.f
+	lvl := func(k int) string { return fmt.Sprintf("sfr%d_%s", k, sf.Name) }
+	if !f.ctx.declSet[lvl(2)] {
+		for k := 0; k <= 2; k++ {
+			f.ctx.DeclareOnce(lvl(k), fmt.Sprintf("(declare-fun %s (%s) %s)", lvl(k), strings.Join(psorts, " "), rs))
+		}
+		entry := f.top.entry
+		if entry == nil {
+			entry = env.old
+		}
+		var binders, qn []string
+		for i, p := range sf.Params {
+			n := fmt.Sprintf("rq!%s!%s", sf.Name, p.Name)
+			qn = append(qn, n)
+			binders = append(binders, fmt.Sprintf("(%s %s)", n, psorts[i]))
+		}
+		for k := 2; k >= 1; k-- {
+			sub := &SpecEnv{f: f, vars: map[string]sval{}, st: entry, old: entry, pkg: env.pkg, reach: "true", qdepth: env.qdepth + 1, recLevel: map[string]int{sf.Name: k - 1}}
+			if sf.Pkg != "" {
+				for _, p := range f.eng.Prog.SSA.AllPackages() {
+					if p.Pkg.Path() == sf.Pkg {
+						sub.pkg = p
+					}
+				}
+			}
+			for i, p := range sf.Params {
+				sub.vars[p.Name] = sval{t: qn[i], sort: psorts[i], typ: atyps[i]}
+			}
+			v, err := sub.eval(sf.Body)
+			if err != nil {
+				return sval{}, fmt.Errorf("spec fun rec %s: %v", sf.Name, err)
+			}
+			app := "(" + lvl(k) + " " + strings.Join(qn, " ") + ")"
+			lower := "(" + lvl(k-1) + " " + strings.Join(qn, " ") + ")"
+			f.ctx.Fact(fmt.Sprintf("(forall (%s) (! (and (= %s %s) (= %s %s)) :pattern (%s)))", strings.Join(binders, " "), app, v.t, app, lower, app))
+		}
+		f.eng.note("recursive spec function (entry state, unfolded twice per term): " + sf.Name)
+	}
+	k := 2
+	if env.recLevel != nil {
+		if l, ok := env.recLevel[sf.Name]; ok {
+			k = l
+		}
+	}
+	return sval{t: "(" + lvl(k) + " " + strings.Join(args, " ") + ")", sort: rs}, nil
 }
 
 // mentions reports the spec-function names called in e.
